@@ -3,6 +3,7 @@ import EmmetProofs.SplitValueRanges
 import EmmetProofs.CssMatchRanges
 import EmmetProofs.HtmlAttrs
 import EmmetProofs.HtmlMatchHead
+import EmmetProofs.HtmlOutwardNested
 /-! # C16 — scanners are total and report only well-formed ranges (HTML scanner, CSS scanner, split_value; all strings) -/
 namespace EmmetProps
 open H
@@ -62,6 +63,11 @@ theorem C16_html_match_is_first_outward (xml : Bool) (pos : Int) (s : Str) (spec
 itself when self-closed) — for EVERY source, position and mode -/
 theorem C16_html_outward_contains (xml : Bool) (pos : Int) (s : Str) (special : List (Str × Option (List Str))) :
     ∀ m ∈ outwardLoop xml pos (scan s special) [] [], m.Contains pos := H.outward_contains xml pos (scan s special)
+
+/-- HTML: successive `balanced_outward()` entries strictly contain each other (innermost first) — for EVERY source, position and mode;
+rests on the order theorem of the scanner (`C16_html_scan`) and the stack discipline of the callback -/
+theorem C16_html_outward_nested (xml : Bool) (pos : Int) (s : Str) (special : List (Str × Option (List Str))) :
+    (outwardLoop xml pos (scan s special) [] []).Pairwise (fun inner outer => inner.Inside outer) := H.outward_nested xml pos s special
 
 example : (outwardLoop false 8 (scan ("<div><p>x</p></div>".toList.map Char.toNat)) [] []).length = 2 := by decide +kernel
 
